@@ -373,6 +373,44 @@ func C12Build(r *sim.Run, modes []string) *C12Stream {
 			s.Bytes = append(work.RawStyp(), s.Bytes...)
 		}
 	}
+	// one of the foreign top-level boxes the producer put between the fragments (free, skip, prft, uuid, ...) is
+	// rewritten into the 64-bit size form (legal for any box): the positions of everything behind it then differ from
+	// the sum of the sizes the boxes have when they are written again
+	if t.Chance(200) {
+		type cand struct {
+			si          int
+			start, size int64
+		}
+		var cands []cand
+		for si, s := range p.Segs {
+			tops, werr := ref.Walk(s.Bytes, 0, int64(len(s.Bytes)), true)
+			if werr != nil {
+				continue
+			}
+			for _, b := range tops {
+				switch b.Type {
+				case "moof", "mdat", "styp", "sidx", "emsg":
+				default:
+					if b.Hdr == 8 {
+						cands = append(cands, cand{si, b.Start, b.Size})
+					}
+				}
+			}
+		}
+		if len(cands) > 0 {
+			c := cands[t.Draw(len(cands))]
+			sg := p.Segs[c.si]
+			hdr := make([]byte, 16)
+			binary.BigEndian.PutUint32(hdr, 1)
+			copy(hdr[4:8], sg.Bytes[c.start+4:c.start+8])
+			binary.BigEndian.PutUint64(hdr[8:], uint64(c.size+8))
+			nb := append([]byte(nil), sg.Bytes[:c.start]...)
+			nb = append(nb, hdr...)
+			nb = append(nb, sg.Bytes[c.start+8:]...)
+			sg.Bytes = nb
+			r.Probe("foreign-top-level-box-largesize")
+		}
+	}
 	// ---- assemble the stream with the delimiters of this mode
 	stream := append([]byte(nil), p.InitBytes...)
 	var groups [][]uint32 // ground truth: sequence numbers per segment
